@@ -425,6 +425,15 @@ func (x *Exec) doBinOp(st *State, b *ssa.BinOp) Value {
 		x.note("general bitwise AND treated as uninterpreted with range facts: " + x.funcName())
 		return scalar(t, res)
 	case token.OR:
+		// x | 2^k on a non-negative x sets one bit: exact
+		if !signed {
+			for _, pr := range [][2]Term{{a, c}, {c, a}} {
+				if mv, ok := litVal(pr[1].S); ok && mv.Sign() > 0 && new(big.Int).And(mv, new(big.Int).Sub(mv, big.NewInt(1))).Sign() == 0 {
+					bitSet := mkEq(app("mod", sInt, app("div", sInt, pr[0], pr[1]), mkInt(2)), tOne)
+					return scalar(t, mkIte(bitSet, pr[0], mkArith("+", pr[0], pr[1])))
+				}
+			}
+		}
 		res := x.rangedUF(st, t, "bitor", a, c)
 		if !signed {
 			st.assume(mkAnd(mkCmp(">=", res, a), mkCmp(">=", res, c), mkCmp("<=", res, mkArith("+", a, c))))
